@@ -670,8 +670,23 @@ impl AST {
                     // In theory this should never be reachable
                     unreachable!();
                 } else {
-                    Self::translate_expr(elems.next().unwrap(), ops, root);
-                    ops.push(Op::Render, pos);
+                    match elems.next() {
+                        Some(expr) => {
+                            Self::translate_expr(expr, ops, root);
+                            ops.push(Op::Render, pos);
+                        }
+                        None => {
+                            // More placeholders than arguments is an error in the
+                            // program being compiled, not a reason to abort.
+                            ops.push(
+                                Op::Val(Primitive::Str(
+                                    "Too few arguments for the placeholders in format string".into(),
+                                )),
+                                pos.clone(),
+                            );
+                            ops.push(Op::Bang, pos);
+                        }
+                    }
                 }
             }
             TemplatePart::Expression(mut expr) => {
